@@ -215,7 +215,14 @@ func TestC15_ClientAssertions(t *testing.T) {
 			}
 		})
 		if keySource == "jwks_uri" {
-			for id, uri := range map[string]string{"jwt-client": "https://rp.example/keys?tenant=a", "other-jwt-client": "https://rp.example/keys?tenant=b"} {
+			// the two documents live at URIs that are different strings but easy to confuse: same path with another
+			// query, or the same letters in another case
+			uris := rapid.SampledFrom([]map[string]string{
+				{"jwt-client": "https://rp.example/keys?tenant=a", "other-jwt-client": "https://rp.example/keys?tenant=b"},
+				{"jwt-client": "https://rp.example/tenants/Acme/jwks.json", "other-jwt-client": "https://rp.example/tenants/acme/jwks.json"},
+			}).Draw(rt, "jwksURIs")
+			for _, id := range []string{"jwt-client", "other-jwt-client"} {
+				uri := uris[id]
 				oc, _ := w.Mem.Clients[id].(*fosite.DefaultOpenIDConnectClient)
 				doc, _ := jsonMarshal(oc.JSONWebKeys)
 				w.Docs[uri] = string(doc)
